@@ -131,6 +131,19 @@ impl std::fmt::Debug for Ty {
 }
 
 impl Ty {
+    /// Name of the type constructor, if the type has one. The typer keeps going after it has
+    /// reported a malformed type (a type parameter applied to arguments, `B[int32]`), so code
+    /// that runs on such results (method lookup, editor queries) must not assume one.
+    pub fn constr_name(&self) -> Option<String> {
+        match self {
+            Self::TEnum { name } | Self::TStruct { name } => Some(name.clone()),
+            Self::TApp { ty, .. } => ty.constr_name(),
+            Self::TVec { .. } => Some("Vec".to_string()),
+            Self::TRef { .. } => Some("Ref".to_string()),
+            _ => None,
+        }
+    }
+
     pub fn get_constr_name_unsafe(&self) -> String {
         match self {
             Self::TEnum { name } | Self::TStruct { name } => name.clone(),
